@@ -1156,6 +1156,136 @@ func (x *sealedScn) enroll(s *sealedServer, flow, name string, nsw wrapping.Wrap
 	return n, ni, nil
 }
 
+// runFaultFlow: a server-side call is made under a storage wrapper while exactly
+// one of its storage operations fails (position sc.Variant, error kind sc.Type),
+// and is then repeated on working storage. Whatever the calls return, nothing
+// they hand to storage may carry a secret in clear (the inspection at the end of
+// the case reads every recorded Store). Secrets the library generated inside
+// the calls are learnt afterwards by opening what is in storage with the wrapper.
+func (x *sealedScn) runFaultFlow() {
+	sc := x.sc
+	r := x.r
+	srv := &sealedServer{side: x.newSide("server", world.NewAead("srv-sw-"+hex.EncodeToString(world.RandBytes(4))))}
+	if sc.Flow == world.FlowWrapper {
+		srv.rw = world.NewAead("rw-" + hex.EncodeToString(world.RandBytes(4)))
+	}
+	roots, err := rotation.RotateRootCertificates(x.ctx, srv.side.store, srv.opts()...)
+	if err != nil {
+		x.failed = "RotateRootCertificates: " + err.Error()
+		return
+	}
+	x.secretsOfRoots(roots)
+	x.roundTrip(srv.side, roots)
+	var call func() error
+	switch sc.Flow {
+	case "rotate-roots":
+		// make the stored set promotable so that the call under test writes
+		old := x.craftedRoots("promote")
+		x.secretsOfRoots(old)
+		if err := x.libStore(srv.side, old); err != nil {
+			x.failed = "store crafted roots: " + err.Error()
+			return
+		}
+		call = func() error {
+			rr, err := rotation.RotateRootCertificates(x.ctx, srv.side.store, srv.opts()...)
+			if err == nil {
+				x.secretsOfRoots(rr)
+			}
+			return err
+		}
+	case world.FlowAuthorize, world.FlowToken, world.FlowWrapper:
+		var n *sealedNode
+		var req *types.FetchNodeCredentialsRequest
+		var state *structpb.Struct
+		if sc.State {
+			state = x.state("fault")
+		}
+		switch sc.Flow {
+		case world.FlowToken:
+			_, tok, _, terr := x.createToken(srv, state)
+			if terr != nil {
+				x.failed = terr.Error()
+				return
+			}
+			if n, err = x.newNode("node", nil, tok); err == nil {
+				req, err = n.creds.CreateFetchNodeCredentialsRequest(x.ctx, n.tokenOpt()...)
+			}
+		case world.FlowWrapper:
+			if n, err = x.newNode("node", nil, ""); err == nil {
+				req, err = n.creds.CreateFetchNodeCredentialsRequest(x.ctx, nodeenrollment.WithRegistrationWrapper(srv.rw))
+			}
+		default:
+			if n, err = x.newNode("node", nil, ""); err == nil {
+				req, err = n.creds.CreateFetchNodeCredentialsRequest(x.ctx)
+			}
+		}
+		if err != nil {
+			x.failed = "node side: " + err.Error()
+			return
+		}
+		if sc.Flow == world.FlowAuthorize {
+			// the call under test is the authorization itself, followed by the fetch
+			call = func() error {
+				var extra []nodeenrollment.Option
+				if state != nil {
+					extra = append(extra, nodeenrollment.WithState(state))
+				}
+				if _, err := registration.AuthorizeNode(x.ctx, srv.side.store, req, srv.opts(extra...)...); err != nil {
+					return err
+				}
+				_, err := registration.FetchNodeCredentials(x.ctx, srv.side.store, req, srv.opts()...)
+				return err
+			}
+		} else {
+			call = func() error {
+				_, err := registration.FetchNodeCredentials(x.ctx, srv.side.store, req, srv.opts()...)
+				return err
+			}
+		}
+	default:
+		x.failed = "unknown fault flow " + sc.Flow
+		return
+	}
+	srv.side.rec.Arm(sc.Variant, sc.Type)
+	ferr := call()
+	fired := srv.side.rec.Fired()
+	srv.side.rec.Arm(0, "")
+	if !fired {
+		r.Count("fault_flow_fault_not_reached", 1)
+		return
+	}
+	r.Count("fault_flow_faults_delivered", 1)
+	r.Count("fault_flow_faults_delivered:"+sc.Flow, 1)
+	if ferr != nil {
+		r.Count("fault_flow_call_failed", 1)
+		if rerr := call(); rerr == nil {
+			r.Count("fault_flow_retry_succeeded", 1)
+		}
+	}
+	// learn what the library generated: open what is in storage now
+	for _, typ := range []string{sealedNI, sealedTok} {
+		ids, lerr := srv.side.inner.List(x.ctx, sealedNewMsg(typ, ""))
+		if lerr != nil {
+			continue
+		}
+		for _, id := range ids {
+			m, oerr := sealedLibLoad(x.ctx, srv.side.inner, typ, id, srv.side.opts()...)
+			if oerr != nil {
+				continue
+			}
+			switch v := m.(type) {
+			case *types.NodeInformation:
+				x.secretsOfInfo(v)
+			case *types.ServerLedActivationToken:
+				x.secretOfTokenTime(v.CreationTime)
+			}
+		}
+	}
+	if m, oerr := sealedLibLoad(x.ctx, srv.side.inner, sealedRoots, string(nodeenrollment.RootsMessageId), srv.side.opts()...); oerr == nil {
+		x.secretsOfRoots(m.(*types.RootCertificates))
+	}
+}
+
 func (x *sealedScn) runFlow() {
 	sc := x.sc
 	r := x.r
@@ -1350,6 +1480,8 @@ func runSealedCase(c *engine.Ctx, sc sealedCase) {
 			x.runDirect()
 		case "flow":
 			x.runFlow()
+		case "faultflow":
+			x.runFaultFlow()
 		default:
 			x.failed = "unknown case kind " + sc.Kind
 		}
@@ -1454,8 +1586,19 @@ func runSealed(c *engine.Ctx) engine.Result {
 			}
 		}
 	}
+	// flows under single storage faults
+	nFlow := len(cases) - nDirect
+	for _, fl := range []string{world.FlowToken, world.FlowAuthorize, world.FlowWrapper, "rotate-roots"} {
+		for pos := 1; pos <= 12; pos++ {
+			for ki, kind := range recstore.FaultKinds {
+				be := world.Backends[(pos+ki)%len(world.Backends)]
+				cases = append(cases, sealedCase{Kind: "faultflow", Backend: be, Flow: fl, Type: kind, Variant: pos, State: (pos+ki)%2 == 0})
+			}
+		}
+	}
+	r.Set("fault_flow_cases", len(cases)-nDirect-nFlow)
 	r.Set("direct_cases", nDirect)
-	r.Set("flow_cases", len(cases)-nDirect)
+	r.Set("flow_cases", nFlow)
 	r.Sample(cases[3])
 	r.Sample(cases[nDirect-1])
 	r.Sample(cases[nDirect+5])
@@ -1476,6 +1619,7 @@ func runSealed(c *engine.Ctx) engine.Result {
 	r.Require("stores_with_bundles:"+sealedNI, 20)
 	r.Require("stores_with_bundles:"+sealedNC, 20)
 	r.Require("secrets_registered", 500)
+	r.Require("fault_flow_faults_delivered", 40)
 	r.Require("substring_searches", 5000)
 	r.Require("transplant_controls_ok", 100)
 	r.Require("flow_step:rotate-node-credentials", 10)
